@@ -112,56 +112,81 @@ def reviewed_side_conditions(ctx):
     if not pv or not tp:
         return [ob("C01.progress/reviewed/anchor", False, "parse/tag.rs", "parse_vec_node / Template::parse not found")]
     f = pv[0]
-    loops = [n for n in sir.walk(f.body) if n.get("k") == "loop"]
+    import guards as G
+    loops = [n for n in sir.walk(f.body) if n.get("k") in ("loop", "while")]
     ok = False
     handled = set()
     until = set()
     d = ""
+
+    def is_end_test(c):
+        return c.get("k") == "mcall" and c["m"] == "peek_str" and c["args"] and c["args"][0].get("v") == "</"
+
+    def gtxt(g):
+        kind, subj, pol = g
+        if kind == "cond":
+            return sir.expr_str(subj)
+        if kind == "pat":
+            return sir.expr_str(subj[0]) + " ~ " + subj[1]
+        return sir.expr_str(subj)
     if loops:
         lp = loops[0]
-        st0 = lp["body"]["stmts"][0] if lp["body"]["stmts"] else None
-        # first statement: if ps.ended() || ps.peek_str("</") { break }
-        first_ok = st0 is not None and st0.get("k") == "expr" and st0["e"].get("k") == "if" and \
-            sir.expr_str(st0["e"]["cond"]).replace(" ", "") == 'ps.ended()||ps.peek_str("</")' and any(x.get("k") == "break" for x in sir.walk(st0["e"]["then"]))
-        breaks = [x for x in sir.walk(lp["body"], into_closures=False) if x.get("k") in ("break", "return")]
-        only_exit = len(breaks) == 1
+        gs = G.guards_of(f.body)
+        # the loop is left only where `ps.peek_str("</")` (or the end of input) has been seen: as the `while` condition, or as the
+        # condition dominating every break / return of the body
+        in_cond = lp.get("k") == "while" and any(is_end_test(x) for x in sir.walk(lp["cond"]))
+        exits = [x for x in sir.walk(lp["body"], into_closures=False) if x.get("k") in ("break", "return")]
+        exits_guarded = all(any(kind == "cond" and any(is_end_test(y) for y in sir.walk(subj)) for kind, subj, pol in gs.get(id(x), [])) for x in exits)
+        first_ok = (in_cond or bool(exits)) and exits_guarded and (in_cond or any(is_end_test(y) for x in exits for kind, subj, pol in gs.get(id(x), []) if kind == "cond" for y in sir.walk(subj)))
+        only_exit = exits_guarded
         if first_ok:
             handled.add("/")
         for x in sir.walk(lp["body"], into_closures=False):
             if x.get("k") == "mcall" and x["m"] == "consume_str" and x["args"] and x["args"][0].get("v") == "<!":
                 handled.add("!")
-            if x.get("k") == "if" and "is_start_char(peek2)" in sir.expr_str(x["cond"]) and "peek=='<'" in sir.expr_str(x["cond"]).replace(" ", ""):
-                if any(y.get("k") == "call" and (sir.call_path(y) or "").endswith("Element::parse") for y in sir.walk(x["then"])):
+            if x.get("k") == "call" and (sir.call_path(x) or "").endswith("Element::parse"):
+                txt = " && ".join(gtxt(g) for g in gs.get(id(x), []))
+                if "is_start_char" in txt and "'<'" in txt:
                     handled.add("@start")
         for c in sir.walk(lp["body"]):
             if c.get("k") == "call" and (sir.call_path(c) or "").endswith("Value::parse_until_before"):
-                clo = [a for a in c["args"] if a.get("k") == "closure"]
+                clo = [a_ for a_ in c["args"] if a_.get("k") == "closure"]
                 if clo:
+                    # characters / character classes the text scan stops in front of (after a `<`): everything the predicate compares
+                    # the second character with
                     for x in sir.walk(clo[0]["body"]):
-                        if x.get("k") == "binary" and x["op"] == "==" and x["r"].get("t") == "char" and sir.expr_str(x["l"]) == "ch":
-                            until.add(x["r"]["v"])
-                        if x.get("k") in ("call", "mcall") and x.get("args") and any(sir.expr_str(a) == "ch" for a in x["args"]):
-                            nm = (sir.call_name(x) or x.get("m") or "?").split("::")[-1]
-                            until.add("@start" if nm == "is_start_char" else "@" + nm)
-                        if x.get("k") == "mcall" and sir.expr_str(x["recv"]) == "ch":
+                        if x.get("k") == "binary" and x["op"] == "==":
+                            for side, other in ((x["l"], x["r"]), (x["r"], x["l"])):
+                                if side.get("k") == "lit" and side.get("t") == "char" and side["v"] != "<" and other.get("k") == "path":
+                                    until.add(side["v"])
+                        if x.get("k") == "p_lit" and x["e"].get("t") == "char" and x["e"]["v"] != "<":
+                            until.add(x["e"]["v"])
+                        if x.get("k") in ("call", "mcall") and x.get("args") and any(sir.strip_ref(a_).get("k") == "path" and len(sir.strip_ref(a_)["segs"]) == 1 for a_ in x["args"]) and x.get("k") == "call":
+                            nm = (sir.call_name(x) or "?").split("::")[-1]
+                            if nm not in ("Some",):
+                                until.add("@start" if nm == "is_start_char" else "@" + nm)
+                        if x.get("k") == "path" and x["segs"][-1] == "is_start_char":
+                            until.add("@start")   # passed as a function value (`map_or(false, Ident::is_start_char)`)
+                        if x.get("k") == "mcall" and x["recv"].get("k") == "path" and len(x["recv"]["segs"]) == 1 and x["recv"]["s"] not in ("ps",) and x["m"].startswith("is_"):
                             until.add("@ch." + x["m"])
-                        if x.get("k") == "binary" and x["op"] == "!=" and "peek" in sir.expr_str(x["l"]) and "'<'" in sir.expr_str(x["r"]):
-                            pass
         ok = first_ok and only_exit and until and until <= handled
-        d = "loop exits only at `ps.ended() || ps.peek_str(\"</\")`: %s/%s; text stops in front of `<` + %s; earlier arms take `<` + %s" % (first_ok, only_exit, sorted(until), sorted(handled))
+        d = "loop is left only at `ps.ended() || ps.peek_str(\"</\")`: %s/%s; text stops in front of `<` + %s; earlier arms take `<` + %s" % (first_ok, only_exit, sorted(until), sorted(handled))
     obs.append(ob("C01.progress/reviewed/parse_vec_node", bool(ok), ctx.where(f), d,
                   witness=None if ok else "`<?` (or whatever the text arm newly stops at) is consumed by no arm: the node loop spins forever"))
     g = tp[0]
-    wl = [n for n in sir.walk(g.body) if n.get("k") == "while"]
+    wl = [n for n in sir.walk(g.body) if n.get("k") in ("while", "loop")]
     ok2 = False
     if wl:
         w = wl[0]
-        c = sir.expr_str(w["cond"]).replace(" ", "")
-        ifs = [n for n in sir.walk(w["body"]) if n.get("k") == "if" and sir.expr_str(n["cond"]).replace(" ", "") == 'ps.peek_str("</")']
+        gs2 = G.guards_of(g.body)
         # the skip must really consume: not inside a closure (a `try_parse` look-ahead is rolled back when it fails)
-        skips = ifs and any(x.get("k") == "mcall" and x["m"] == "skip_until_after" and x["args"] and x["args"][0].get("v") == ">" for x in sir.walk(ifs[0]["then"], into_closures=False))
-        ok2 = c == "!ps.ended()" and bool(skips)
-    obs.append(ob("C01.progress/reviewed/Template::parse", ok2, ctx.where(g), "top loop runs `while !ps.ended()` and answers a stray `</` by skipping past the next `>`: %s" % ok2))
+        skips = [x for x in sir.walk(w["body"], into_closures=False) if x.get("k") == "mcall" and x["m"] == "skip_until_after" and x["args"] and x["args"][0].get("v") == ">"]
+        answered = any(any(kind == "cond" and pol and any(is_end_test(y) for y in sir.walk(subj)) for kind, subj, pol in gs2.get(id(x), [])) for x in skips)
+        runs_to_end = any(x.get("k") == "mcall" and x["m"] == "ended" for x in sir.walk(w["cond"])) if w.get("k") == "while" else \
+            any(any(kind == "cond" and any(y.get("k") == "mcall" and y["m"] == "ended" for y in sir.walk(subj)) for kind, subj, pol in gs2.get(id(x), []))
+                for x in sir.walk(w["body"], into_closures=False) if x.get("k") in ("break", "return"))
+        ok2 = runs_to_end and answered
+    obs.append(ob("C01.progress/reviewed/Template::parse", ok2, ctx.where(g), "top loop runs until `ps.ended()` and answers a stray `</` by skipping past the next `>`: %s" % ok2))
     # skip_until_after consumes everything when the needle is missing
     sb = [f2 for f2 in tc.fns if f2.name == "skip_until_before" and f2.base == "ParseState" and f2.body]
     ok3 = False
@@ -255,22 +280,50 @@ def boundary_safe_slices(tc):
     """{fn qual: n} - string slices `s[..n]` / `s[n..]` whose bound is a local taken from `s.find(..)` / `s.rfind(..)` / `s.len()`
     (optionally `.unwrap_or(s.len())`): such an index is in range and on a character boundary of `s` by construction"""
     out = {}
-    for f in tc.fns:
-        if not f.body:
-            continue
+
+    def len_getter(name, base):
+        """a zero-argument method whose whole body is `<base>.len()`"""
+        for g in tc.fns:
+            if g.name == name and g.body and len(g.params) == 1 and g.params[0].get("self") and len(g.body["stmts"]) == 1:
+                st = g.body["stmts"][0]
+                if st.get("k") == "expr" and not st.get("semi") and sir.expr_str(st["e"]).replace(" ", "") == base + ".len()":
+                    return True
+        return False
+
+    def locals_of(f):
         locs = {}
         for n in sir.walk(f.body):
             if n.get("k") == "local" and n["pat"].get("k") == "p_ident" and n.get("init") is not None:
                 locs.setdefault(n["pat"]["name"], n["init"])
+        return locs
 
-        def origin_ok(b, base):
+    for f in tc.fns:
+        if not f.body:
+            continue
+        locs = locals_of(f)
+
+        def origin_ok(b, base, f=f, locs=locs, depth=0):
             if b is None:
                 return True
             b = sir.strip_ref(b)
             if b.get("k") == "path" and len(b["segs"]) == 1 and b["segs"][0] in locs:
                 e = locs[b["segs"][0]]
+            elif (b.get("k") == "path" and len(b["segs"]) == 1 and b["segs"][0] in f.param_names() and base.startswith("self.")
+                  and f.base and f.node.get("vis", "") in ("", "pub(crate)", "pub(super)", "pub(self)") and depth == 0):
+                # a bound handed in by the callers of a private method: every caller passes an offset taken from the same field
+                pi = f.param_names().index(b["segs"][0]) - 1
+                sites = []
+                for g in tc.fns:
+                    if not g.body or g.base != f.base:
+                        continue
+                    for c in sir.walk(g.body):
+                        if c.get("k") == "mcall" and c["m"] == f.name and sir.expr_str(c["recv"]) == "self" and len(c["args"]) > pi:
+                            sites.append((g, c["args"][pi]))
+                return bool(sites) and all(origin_ok(a, base, g, locals_of(g), 1) for g, a in sites)
             else:
                 e = b
+            if e.get("k") == "mcall" and not e["args"] and sir.expr_str(e["recv"]) == "self" and base.startswith("self.") and len_getter(e["m"], base):
+                return True
             # strip `.unwrap_or(base.len())`
             if e.get("k") == "mcall" and e["m"] in ("unwrap_or", "unwrap_or_else") and e["args"]:
                 dflt = sir.expr_str(e["args"][0]).replace(" ", "")
